@@ -71,9 +71,15 @@ struct C17 : Profile {
     setup += "function opass(o:vf) return vf is\nbegin\n  return o;\nend;\n"
              "function omake(t) return vf is\nbegin\n  loc = vf(t);\n  tmp = vf(t + 1);\n  return loc;\nend;\n"
              "function okeep(o:vf) return integer is\nbegin\n  held = o;\n  return 1;\nend;\n"
+             "import vg;\nfunction otag(o:vf) return integer is\nbegin\n  return o.tag() + o.get();\nend;\nog = vg(9);\n"
              "oa = vf(1);\nob = oa;\noc = vf(2);\not = tab(1, vf(3));\not2 = ot;\nou = tup(1, vf(4), \"x\");\nou2 = ou;\n";
     std::vector<std::string> body; for (auto& s : p.ast["body"]) body.push_back(print_stmt(s, 0));
     for (auto& t : object_statements(r, allowed, uniq)) body.insert(body.begin() + r.below(body.size() + 1), t + "\n");
+    // a receiver that changes module after the call was compiled: the method of one module must never run on the object of another (last statement: the error is not catchable)
+    if (r.chance(0.25)) { switch (r.below(3)) {
+      case 0: body.push_back("mx = oa;\nfor mi in 1 to 2 loop\n  print mx.tag();\n  mx = og;\nend loop;\n"); break;
+      case 1: body.push_back("print otag(oa);\nprint otag(og);\n"); break;
+      default: body.push_back("mt = tab(1, oa);\nfor mi in 1 to 2 loop\n  forall me in mt loop\n    print me.get();\n  end loop;\n  mt = tab(1, og);\nend loop;\n"); break; } }
     std::string b; for (auto& s : body) b += s;
     plan["setup"] = enc(setup); plan["text"] = enc(b); plan["allowed_args"] = allowed;
     Rng fr(subseed(runseed(vseed, runno), "fault"));
